@@ -1,15 +1,17 @@
 """R-C21.3 (semantic form)  comptime operators fall back to the reflected method of the OTHER operand, operands swapped.
 
-The wrapper that `binary_operation(f)` returns is interpreted from its syntax tree (the inner function's body; its decorators
-only wrap errors) for a forward dunder (`__add__`, found in `binary_table`) and for a reflected one (`__radd__`, found in
-`reverse_binary_table`), with every combination of: the direct method  succeeds / raises a Guppy error / raises another
-exception,  and the partner method on the other operand  succeeds / raises.  The two tables are given in the orientation the
-module defines (their own orientation is a separate instance), the operands are tokens whose methods are recorders.
+End to end, from the module's own code:  (1) the module-level statements of tracing/object.py that build `binary_table` and
+`reverse_binary_table` are interpreted on a model of the checker's operator table ({Add: ("__add__", "__radd__", "+"),
+Sub: ("__sub__", "__rsub__", "-")}) -- whatever form they have (comprehensions, a loop filling two dicts);  (2)
+`binary_operation(f)` is interpreted as a whole (its inner wrapper is built with its transparent decorators and then called) for
+a forward dunder (`__add__`) and a reflected one (`__rsub__`), with every combination of: the direct method  succeeds / raises a
+Guppy error / raises another exception,  and the partner method on the other operand  succeeds / raises.  The operands are
+traced objects (instances of the mixin's class: Python itself never tries the reflected method for two objects of one class, so
+`NotImplemented` is not a way out); their methods are recorders.
 
 Decided: the direct method is tried first, with (self, other) in this order, and its result returned; only if it fails the
-partner method named by the table -- `__radd__` for `__add__`, `__add__` for `__radd__` -- is called ON `other` WITH `self`, and
-its result returned; if both fail a GuppyTypeError is raised.  Both operands are traced objects (instances of the same class:
-Python itself never tries the reflected method then, so `NotImplemented` is not a way out).
+partner method of the SAME operator -- `__radd__` for `__add__`, `__sub__` for `__rsub__` -- is called ON `other` WITH `self`,
+and its result returned; if both fail a GuppyTypeError is raised.
 """
 
 from __future__ import annotations
@@ -22,61 +24,90 @@ from ..absint.pyeval import PyEval, Raised, Tok
 from ..report import Ctx
 
 OBJ = "guppylang_internals.tracing.object"
+SOURCE_TABLE = {"Add": ("__add__", "__radd__", "+"), "Sub": ("__sub__", "__rsub__", "-")}
+TABLES = ("binary_table", "reverse_binary_table")
+
+
+def module_tables(idx) -> dict:
+    """The two tables as the module's own top-level statements build them from SOURCE_TABLE."""
+    mod = idx.module(OBJ)
+    env: dict = {"expr_checker.binary_table": dict(SOURCE_TABLE), "binary_table_source": dict(SOURCE_TABLE)}
+    # `from ... import binary_table as X` style aliases of the checker's table
+    for st in mod.tree.body:
+        if isinstance(st, ast.ImportFrom) and (st.module or "").endswith("expr_checker"):
+            for a in st.names:
+                if a.name == "binary_table":
+                    env[a.asname or a.name] = dict(SOURCE_TABLE)
+    ev = PyEval(idx, OBJ, max_depth=4)
+    for st in mod.tree.body:
+        if isinstance(st, (ast.Assign, ast.AnnAssign, ast.AugAssign, ast.For)):
+            names = {n.id for n in ast.walk(st) if isinstance(n, ast.Name)}
+            if names & set(TABLES):
+                r = ev.run([st], env)
+                if r[0] == "raise":
+                    raise Unsupported(f"building the operator tables raises {r[1]}")
+    out = {t: env.get(t) for t in TABLES}
+    if not all(isinstance(v, dict) and v for v in out.values()):
+        raise Unsupported(f"operator tables not built by evaluable module-level statements: { {k: type(v).__name__ for k, v in out.items()} }")
+    return out
 
 
 def run(ctx: Ctx) -> bool:
     idx = ctx.idx
     bo = idx.find_func("binary_operation", OBJ)
     key = f"{bo.qualname}#reflected-fallback"
-    wrapped = next((n for n in ast.walk(bo.node) if isinstance(n, ast.FunctionDef) and n is not bo.node), None)
-    if wrapped is None or len(wrapped.args.args) != 2 or len(bo.node.args.args) != 1:
-        ctx.undecided("R-C21.3", key, bo.where, "no inner wrapper function (self, other)")
+    if len(bo.node.args.args) != 1:
+        ctx.undecided("R-C21.3", key, bo.where, "binary_operation does not take exactly the decorated method")
         return False
     fname = bo.node.args.args[0].arg
-    p_self, p_other = (a.arg for a in wrapped.args.args)
-    tables = {"binary_table": {"__add__": ("__radd__", "+")}, "reverse_binary_table": {"__radd__": ("__add__", "+")}}
     bad = []
     n = 0
     try:
-        for name, direct, partner in itertools.product(("__add__", "__radd__"), ("ok", "GuppyTypeError", "ValueError"), ("ok", "GuppyTypeError")):
+        tables = module_tables(idx)
+        partner_of = {"__add__": "__radd__", "__rsub__": "__sub__"}
+        for name, direct, partner in itertools.product(("__add__", "__rsub__"), ("ok", "GuppyTypeError", "ValueError"), ("ok", "GuppyTypeError")):
             n += 1
             log: list = []
 
             def forward(a, b, log=log, direct=direct):
-                log.append(("direct", a.name, b.name))
+                log.append(("direct", getattr(a, "name", a), getattr(b, "name", b)))
                 if direct != "ok":
                     raise Raised("direct method fails", direct)
                 return Tok("direct_result", __ident__=1)
 
             def getattr_(r, a, log=log, partner=partner):
                 def bound(x, r=r, mname=a[0]):
-                    log.append(("partner", r.name, mname, x.name))
+                    log.append(("partner", r.name, mname, getattr(x, "name", x)))
                     if partner != "ok":
                         raise Raised("partner method fails", partner)
                     return Tok("partner_result", __ident__=1)
                 bound.__gsa_lambda__ = True
                 return bound
 
-            # both operands are traced values (`i + f` with i: int, f: float): they are instances of the mixin's classes
             me = Tok("left_operand", _ty=Tok("ty_self"), __class__="GuppyObject", __bases__=("DunderMixin",), __ident__=1)
             other = Tok("right_operand", _ty=Tok("ty_other"), __class__="GuppyObject", __bases__=("DunderMixin",), __ident__=1)
             for t in (me, other):
                 t.attrs["__methods__"] = {"__getattr__": getattr_}
             state = Tok("state", dfg=Tok("dfg", builder=Tok("builder")), node=Tok("node"), ctx=Tok("ctx"), __ident__=1)
-            env = {fname: Tok("f", __name__=name, __call__=forward, __ident__=1), p_self: me, p_other: other, **tables,
+
+            def transparent(fn):
+                return fn
+            transparent.__gsa_decorator__ = True
+            env = {fname: Tok("f", __name__=name, __call__=forward, __ident__=1), "__globals__": {k: dict(v) for k, v in tables.items()},
+                   "capture_guppy_errors": transparent,
                    "get_tracing_state": lambda nd, e, env, state=state: state, "guppy_object_from_py": lambda nd, e, env: e.ev(nd.args[0], env),
                    "BinaryOperatorNotDefinedError": lambda nd, e, env: Tok("BinaryOperatorNotDefinedError")}
             ev = PyEval(idx, OBJ, max_depth=6)
+            out = ev.run(bo.node.body, env)
+            if out[0] != "return" or not callable(out[1]):
+                raise Unsupported(f"binary_operation returns {out!r}"[:80])
             try:
-                out = ev.run(wrapped.body, env)
-                raised = str(out[1]) if out[0] == "raise" else None
-                ret = out[1] if out[0] == "return" else None
+                ret, raised = out[1](me, other), None
             except Raised as e:
-                raised, ret = e.cls or str(e), None
-            partner_name = "__radd__" if name == "__add__" else "__add__"
+                ret, raised = None, e.cls or str(e)
             want_log = [("direct", "left_operand", "right_operand")]
             if direct != "ok":
-                want_log.append(("partner", "right_operand", partner_name, "left_operand"))
+                want_log.append(("partner", "right_operand", partner_of[name], "left_operand"))
             want = "direct_result" if direct == "ok" else ("partner_result" if partner == "ok" else None)
             case = {"method": name, "direct_method": direct, "partner_method_on_the_other_operand": partner}
             got = ret.name if isinstance(ret, Tok) else ret
@@ -85,6 +116,8 @@ def run(ctx: Ctx) -> bool:
     except Unsupported as e:
         ctx.undecided("R-C21.3", key, bo.where, str(e))
         return False
-    ctx.check(not bad, "R-C21.3", key, bo.where, {"cases": n, "counterexamples": bad[:3], "n_counterexamples": len(bad)},
-              "the reflected-operator fallback looks the method up in the wrong table or does not swap operands")
+    ctx.check(not bad, "R-C21.3", key, bo.where, {"cases": n, "tables_as_built_by_the_module": {k: {a: list(b) for a, b in v.items()} for k, v in tables.items()},
+                                                  "counterexamples": bad[:3], "n_counterexamples": len(bad)},
+              "the reflected-operator fallback looks the method up in the wrong table (or the tables are keyed the wrong way round) or does "
+              "not swap operands")
     return True
